@@ -433,6 +433,12 @@ def code_from_ms(cmd: Cmd):
 
 
 def code_to_ms(g, N0, samples):
+    # the command for (g, N0, samples) must not depend on what was converted before: the same graph is first
+    # converted under another sampling scheme (result discarded)
+    try:
+        demes.to_ms(g, N0=float(N0), samples=None if samples is not None else [1] * len(g.demes))
+    except Exception:  # noqa: BLE001
+        pass
     try:
         s = demes.to_ms(g, N0=float(N0), samples=samples)
     except Exception as e:  # noqa: BLE001
